@@ -2,6 +2,9 @@
 create_node) are not yet verified against their bodies; their INTERFACE contract states which objects they
 may touch -- the random source and the decider they are given -- and the mapping functions are verified
 against it: everything a mapping hands to the synthesis must be allocated by the mapping itself."""
+import specs.gene_sources  # noqa: F401  (declaration order)
+import specs.linear_genotypes  # noqa: F401  (declaration order)
+import specs.structured_genotypes  # noqa: F401  (declaration order)
 from pyvc.spec import REG as R, Loop
 
 GE = "geneticengine/representations/grammatical_evolution/ge.py"
